@@ -117,13 +117,21 @@ def run_entropies(ent_len):
 
 
 # ---------------------------------------------------------------- scripts for the scripted reader
-ERR_KINDS = ["eof", "ueof", "x1", "x2"]
+ERR_KINDS = ["eof", "ueof", "x1", "x2", "t1"]
 
 
 def script_str(items):
+    """items: (data, error kind or None) or (data, error kind or None, delay in ms)"""
     if not items:
         return "-"
-    return ",".join("%s:%s" % (hx(d), e or "-") for d, e in items)
+    out = []
+    for it in items:
+        d, e = it[0], it[1]
+        t = "%s:%s" % (hx(d), e or "-")
+        if len(it) > 2 and it[2]:
+            t += "@%d" % it[2]
+        out.append(t)
+    return ",".join(out)
 
 
 def fragment(rng, data, parts):
@@ -139,7 +147,8 @@ def fragment(rng, data, parts):
 def delivered(items):
     """bytes delivered up to and including the first response carrying an error; whether an error/end occurred"""
     out = b""
-    for d, e in items:
+    for it in items:
+        d, e = it[0], it[1]
         out += d
         if e:
             return out, e
@@ -250,3 +259,67 @@ def damaged(rng, lang, idx):
 
 
 EQUIV_SEPS = [" ", " ", " ", " ", "　", " "]   # all map to U+0020 under NFKD
+
+
+def extreme_sentences(rng, lang, n):
+    """valid sentences of the longest / shortest words of a list (by bytes and by code points)"""
+    t = table(lang)
+    out = []
+    for key, rev in ((lambda i: len(t[i]), True), (lambda i: len(t[i].decode()), True), (lambda i: len(t[i]), False)):
+        order = sorted(range(2048), key=key, reverse=rev)
+        pre = order[:n - 1]
+        rng.shuffle(pre)
+        ok = last_words_ok(pre, n)
+        last = sorted(ok, key=key, reverse=rev)[0]
+        out.append(pre + [last])
+    return out
+
+
+def validator_inputs(rng, lang, n=None):
+    """a diverse set of validator inputs for one language: (tag, bytes)"""
+    t = table(lang)
+    other = rng.choice([l for l in LANGS if l != lang])
+    out = []
+    for cnt in ([n] if n else [12, 24, rng.choice([15, 18, 21])]):
+        el = cnt // 3 * 4
+        z = indices_of_entropy(bytes(2) + rng.randbytes(el - 2))       # entropy starts with zero bytes
+        nz = indices_of_entropy(bytes([0xFF]) + rng.randbytes(el - 1))  # entropy starts with a non-zero byte
+        out.append(("valid-zero-lead-%d" % cnt, sentence(lang, z, b" ")))
+        out.append(("valid-nonzero-lead-%d" % cnt, sentence(lang, nz, b" ")))
+        for base, nm in ((z, "zero"), (nz, "nonzero")):
+            bad = list(base)
+            bad[-1] ^= 1
+            out.append(("checksum-%s-lead-%d" % (nm, cnt), sentence(lang, bad, b" ")))
+        ws = [t[i] for i in nz]
+        for pos in (0, 1, cnt // 2, cnt - 1):
+            w2 = list(ws)
+            w2[pos] = b"zzzunknown"
+            out.append(("unknown-at-%d-of-%d" % (pos, cnt), b" ".join(w2)))
+        out.append(("count-%d" % (cnt + 1), b" ".join(ws + [t[7]])))
+    out.append(("other-language", sentence(other, indices_of_entropy(rng.randbytes(16)), b" ")))
+    return out
+
+
+def respell_one_char(rng, b, where):
+    """respell ONE character of a sentence (first / last / random position) in an NFKD-equivalent way, or None"""
+    s = b.decode()
+    pos = {"first": 0, "last": len(s) - 1}.get(where)
+    idxs = [pos] if pos is not None else rng.sample(range(len(s)), min(len(s), 8))
+    for i in idxs:
+        c = s[i]
+        if 0x21 <= ord(c) <= 0x7E:
+            r = chr(ord(c) - 0x20 + 0xFF00)          # full-width form
+        elif c == " ":
+            r = chr(0x3000)
+        else:
+            # compose with the preceding base character where possible (NFC of the two-character cluster)
+            j = i
+            while j > 0 and unicodedata.combining(s[j]):
+                j -= 1
+            cl = s[j:i + 1]
+            rc = unicodedata.normalize("NFC", cl)
+            if rc != cl:
+                return (s[:j] + rc + s[i + 1:]).encode()
+            continue
+        return (s[:i] + r + s[i + 1:]).encode()
+    return None
